@@ -324,10 +324,10 @@ def run(ck, facts):
 
     # ---------------- R3 order
     dg = tool.fn("dart::TyGenContext::gen_method_info")
-    order.method_param_order(ck, "R3", dg, "dart::gen_method_info", min_lists=3)
+    order.method_param_order(ck, "R3", dg, "dart::gen_method_info", min_lists=1, unit=tool)
     order.write_cells(ck, "R3", dg, "dart::gen_method_info", adts, core)
     kg = tool.fn("kotlin::TyGenContext::gen_native_method_info")
-    order.method_param_order(ck, "R3", kg, "kotlin::gen_native_method_info")
+    order.method_param_order(ck, "R3", kg, "kotlin::gen_native_method_info", unit=tool)
     order.write_cells(ck, "R3", kg, "kotlin::gen_native_method_info", adts, core)
     order.is_write_table(ck, "R3", core, adts)
     # struct field order: loops over def.fields / ty.fields without reordering
